@@ -71,6 +71,7 @@ type c14Hist struct {
 	Closures map[string][]string  `json:"closures"` // prog -> closure (generator's notion)
 	StdUsed  map[string][]string  `json:"std_used"`
 	Decoys   []string             `json:"decoys"`
+	Long     bool                 `json:"long,omitempty"` // the world holds fill.tsh and probe0..2.tsh, and the history ends with some hundred calls
 	Twins    bool                 `json:"twins,omitempty"` // the world holds tw/one/util.tsh and tw/two/util.tsh with the same bytes
 	Mount0   string               `json:"mount0"`
 	Exe0     string               `json:"exe0"`
@@ -381,6 +382,18 @@ func c14GenOdd(r *Run, rng *gen.Rng, corpus []string, oddPool []string) *c14Hist
 		h.Progs = append(h.Progs, "twin.tsh")
 		h.Twins = true
 	}
+	if rng.Chance(1) {
+		h.Long = true
+		gw.Set("fill.tsh", []byte("func keep() int {\n\treturn 1\n}\nprint(keep())\n"))
+		gw.Edges["fill.tsh"] = nil
+		h.Progs = append(h.Progs, "fill.tsh")
+		for i := 0; i < 3; i++ {
+			n := fmt.Sprintf("probe%d.tsh", i)
+			gw.Set(n, []byte(fmt.Sprintf("func probe%d(a int) int {\n\treturn a + %d\n}\nprint(probe%d(1))\n", i, i, i)))
+			gw.Edges[n] = nil
+			h.Progs = append(h.Progs, n)
+		}
+	}
 	h.Files = gw.Files
 	h.Decoys = gw.Decoys
 	for _, p := range h.Progs {
@@ -509,6 +522,28 @@ func c14GenOdd(r *Run, rng *gen.Rng, corpus []string, oddPool []string) *c14Hist
 	for _, rel := range sortedKeys(edited) {
 		if edited[rel] != 0 {
 			h.Steps = append(h.Steps, c14Step{Kind: "edit", Rel: rel, Version: 0})
+		}
+	}
+	if h.Long {
+		// a long-lived process: some hundred further calls. A small program fills the time; three
+		// others are used once early and once again exactly 254, 255 and 256 calls later (a counter
+		// that wraps, a table with 256 slots)
+		idx := map[string]int{}
+		for i, p := range h.Progs {
+			idx[p] = i
+		}
+		gaps := []int{255, 256, 254}
+		at := map[int]int{}
+		for i, g := range gaps {
+			at[i] = idx[fmt.Sprintf("probe%d.tsh", i)]
+			at[i+g] = idx[fmt.Sprintf("probe%d.tsh", i)]
+		}
+		for k := 0; k < 270; k++ {
+			pi, ok := at[k]
+			if !ok {
+				pi = idx["fill.tsh"]
+			}
+			h.Steps = append(h.Steps, c14Step{Kind: "T", Prog: pi, Target: []string{"bash", "batch"}[k%2], Obj: k % 2, MapMode: "canonical", Spelling: "abs"})
 		}
 	}
 	h.Steps = append(h.Steps, c14Step{Kind: "epoch", Jump: int64(1 + rng.Intn(1<<20))}) // another day, host, user, environment
@@ -726,7 +761,11 @@ func c14ColdSteps(conc *simrt.History) []int {
 			continue
 		}
 		nT++
-		if (i > 0 && conc.Steps[i-1].Kind != "transpile") || nT%3 == 0 || nT > total-4 {
+		stride := 3
+		if total > 120 {
+			stride = 25 // (a long-lived process: a sample of its calls, and its last ones)
+		}
+		if (i > 0 && conc.Steps[i-1].Kind != "transpile") || nT%stride == 0 || nT > total-4 {
 			out = append(out, i)
 		}
 	}
@@ -1026,6 +1065,11 @@ func c14Minimise(r *Run, h *c14Hist, v *Violation) *Violation {
 	}
 	cur := *h
 	budget := 200
+	if len(cur.Steps) > 120 {
+		// (a probe of a long history costs seconds; such a history is hardly reducible anyway)
+		budget = 24
+		v.Note = "long history: minimisation limited to 24 probes"
+	}
 	cur.Steps = ddmin(cur.Steps, func(cand []c14Step) bool {
 		c := cur
 		c.Steps = cand
@@ -1035,7 +1079,7 @@ func c14Minimise(r *Run, h *c14Hist, v *Violation) *Violation {
 	// simplify remaining steps
 	for i := range cur.Steps {
 		s := cur.Steps[i]
-		if s.Kind != "T" {
+		if s.Kind != "T" || len(cur.Steps) > 120 {
 			continue
 		}
 		for _, simp := range []func(*c14Step){
